@@ -35,6 +35,7 @@ impl Drop for UndoRegisterCallee {
         if self.defused {
             return;
         }
+        crate::verif_point!("unreg", Some(&self.callee_target), 0);
 
         self.query_computing.abort_callee(&self.callee_target);
     }
@@ -80,6 +81,7 @@ impl<C: Config> Engine<C> {
                 }
 
                 computing.register_calee(calee_target);
+                crate::verif_point!("reg", Some(calee_target), caller.query_id().compact_hash_128().low());
 
                 Some(UndoRegisterCallee::new(computing.clone(), *calee_target))
             },
